@@ -10,6 +10,7 @@
    spells the bytes b. *)
 From Coq Require Import List NArith ZArith Bool Arith.
 From PV Require Model.Pretty Model.JsonLoads Proofs.JsonLoadsFacts.
+From PV Require Gen.Regexes Spec.PublishedRegexes.
 From PV Require Import Base.Bytes Base.Lit Base.Json Base.Utf8 Model.Hwdiags Spec.HwdiagsSpec
                        Proofs.HwdiagsUtf8 Proofs.HwdiagsFacts.
 Import ListNotations.
@@ -138,6 +139,16 @@ Theorem C20_scratch_truncated : forall cd version data,
   ((length data < 8)%nat -> oe500_ud cd 5 version data = HwRaise).
 Proof. exact (fun cd v d => conj (scratch_truncated cd v d) (scratch_sig_truncated cd v d)). Qed.
 Print Assumptions C20_scratch_truncated.
+
+
+(* the hex-field checks of the chip data are the published expressions *)
+Theorem C20_source_hex_checks :
+  Gen.Regexes.re_HEX1 = Spec.PublishedRegexes.re_HEX1 /\
+  Gen.Regexes.re_HEX2 = Spec.PublishedRegexes.re_HEX2 /\
+  Gen.Regexes.re_HEX3 = Spec.PublishedRegexes.re_HEX3 /\
+  Gen.Regexes.re_HEX4 = Spec.PublishedRegexes.re_HEX4.
+Proof. repeat split; reflexivity. Qed.
+Print Assumptions C20_source_hex_checks.
 
 (* non-vacuity: a concrete signature under a concrete chip-data file, through the SRC plugin with
    upper-case words, and a one-register dump, by computation *)
